@@ -149,5 +149,5 @@ def main(tier):
         if kind == "resource":
             js.append({"program": p_, "families": ["task", "resource", "constraint"], "family": "interaction:" + lab.split("/")[2]})
     if lvl == "deep":
-        js = common.widen(js, by=(1,))
+        js = common.widen(js, by=(1, 2))
     return common.run_space_check("C04", tier, js, RULE, ASSUME, budget_s=110 if tier == "quick" else 1500)
